@@ -146,6 +146,9 @@ func (t *TargetsManager) updateTargets(req *shard.UpdateTargetsRequest, undoOnFa
 		if undoOnFailure {
 			undo()
 			t.targets = old
+			// the callbacks that had succeeded (the generated configuration) hold the refused assignment:
+			// they get back what is in force, or the next reload of Prometheus makes it scrape the refused one
+			_ = t.doCallbacks()
 		}
 		return errors.Wrapf(err, "do callbacks")
 	}
